@@ -187,52 +187,64 @@ def clause_gates(R):
 
 
 def clause_gen_poly(R):
-    S = Session()
-    ctx = S.ctx
-    ctx.hooks["may_panic"] = lambda inst: False
-    ctx.no_inline = lambda inst: "samplerz::sampler_z" in inst.name
-    gp = S.find("math::gen_poly")
-    usz = ctx.usize_ty()
+    """gen_poly(n) by identity test: sampler_z is replaced by a rule-local stand-in that returns the k-th value of a
+    pseudo-random sequence d_0, d_1, .. (and records its arguments); gen_poly is then followed on its single feasible
+    path.  Decided: every call is sampler_z(0, sigma*, sigmin <= sigma*, the generator parameter); there are exactly
+    4096 calls; the result has exactly n coefficients and coefficient i equals d_{ik} + .. + d_{ik+k-1}, k = 4096/n.
+    Nothing about the spelling of gen_poly (iterator chain, explicit loops, chunks or index arithmetic) enters."""
+    import random, re
     sigma_star = 1.17 * math.sqrt(Q / 8192)
-    for n in (512, 1024):
-        ent, sums, chunks = [], [], []
+    for n in (512, 1024, 64):
+        for seed in (1, 2):
+            S = Session()
+            ctx = S.ctx
+            ctx.hooks["may_panic"] = lambda inst: False
+            ctx.hooks["exact_collect_max"] = 4200
+            ctx.hooks["keep_heads_max"] = 4200
+            ctx.hooks["exact_int_sum"] = True
+            ctx.path_mode_fns = lambda inst: inst.local
+            ctx.path_budget = 10 ** 8
+            gp = S.find("math::gen_poly")
+            usz = ctx.usize_ty()
+            rnd = random.Random(seed * 1000 + n)
+            vals, ent = [], []
 
-        def obs(evn, **kw):
-            if ctx.quiet:
-                return
-            if evn == "enter" and "samplerz::sampler_z" in kw["callee"].name:
-                ent.append(kw["args"])
-            if evn == "enter" and kw["callee"].name.endswith("]>::chunks"):
-                a = kw["args"]
+            def m_sz(E, st, fr, bi, callee, args, dest_ty):
+                ent.append(list(args))
+                v = rnd.randint(-400, 400)
+                vals.append(v)
+                return [(ctx.const_int(st, v, dest_ty), st)]
+            ctx.models.table[:0] = [(re.compile(r"samplerz::sampler_z$"), m_sz)]
+            ctx.models.cache.clear()
+            st = St()
+            rng = S.cell(st, "rng", Md("rng", {"origin": "param", "site": None}), mut=True)
+            outs = S.run(gp, [ctx.const_int(st, n, usz), rng], st)
+            site = f"gen_poly(n = {n})"
+            if seed == 1:
+                oka = bool(ent) and all(type(a[0]) is Fl and a[0].lo == a[0].hi == 0.0 and type(a[1]) is Fl and a[1].lo == a[1].hi and abs(a[1].lo - sigma_star) < 1e-12
+                                        and type(a[2]) is Fl and a[2].lo == a[2].hi and 0 < a[2].lo <= a[1].lo and type(a[3]) is Pt and a[3].key == ("h", "rng") for a in ent)
+                R.check(oka, "C04-genpoly", site + " sampler", f"draws sampler_z(0, sigma* = {sigma_star:.14f}, ..) from the generator parameter ({len(ent)} calls)",
+                        f"sampler arguments {[str(a[:3]) for a in ent[:2]]}", key=f"genpoly|args|{n}")
+            k = 4096 // n
+            got, ln = None, None
+            if len(outs) == 1:
+                r, s2 = outs[0]
                 try:
-                    sq = S.E.load(kw["st"], a[0].key, a[0].proj)
-                    while type(sq) is Pt:
-                        sq = S.E.load(kw["st"], sq.key, sq.proj)
-                    chunks.append((kw["st"].itv[sq.len.vid], kw["st"].itv[a[1].vid]))
-                except Exception as e:
-                    chunks.append(("?", str(e)))
-            if evn == "sum":
-                sums.append(kw["st"].itv[kw["n"].vid])
-        ctx.observers.append(obs)
-        st = St()
-        rng = S.cell(st, "rng", Md("rng", {"origin": "param", "site": None}), mut=True)
-        outs = S.run(gp, [ctx.const_int(st, n, usz), rng], st)
-        ctx.observers.remove(obs)
-        site = f"gen_poly(n = {n})"
-        oka = bool(ent) and all(type(a[0]) is Fl and a[0].lo == a[0].hi == 0.0 and type(a[1]) is Fl and a[1].lo == a[1].hi and abs(a[1].lo - sigma_star) < 1e-12
-                                and type(a[2]) is Fl and a[2].lo == a[2].hi and 0 < a[2].lo <= a[1].lo and type(a[3]) is Pt and a[3].key == ("h", "rng") for a in ent)
-        R.check(oka, "C04-genpoly", site + " sampler", f"draws sampler_z(0, sigma* = {sigma_star:.14f}, ..) from the generator parameter", f"sampler arguments {[str(a[:3]) for a in ent[:2]]}", key=f"genpoly|args|{n}")
-        k = 4096 // n
-        R.check(chunks == [((4096, 4096), (k, k))] and sums and all(s[1] <= k for s in sums), "C04-genpoly", site + " chunk",
-                f"4096 draws are cut into chunks of 4096/n = {k} and each coefficient is the sum of one chunk ({n} chunks of exactly {k})", f"chunks calls {chunks}, sum lengths {sums[:3]}", key=f"genpoly|chunk|{n}")
-        okl = bool(outs)
-        for r, s2 in outs:
-            try:
-                okl = okl and s2.itv[r.f[0].len.vid] == (n, n)
-            except Exception:
-                okl = False
-        R.check(okl, "C04-genpoly", site + " length", f"returns exactly {n} coefficients", f"lengths {[str(r)[:80] for r, _ in outs]}", key=f"genpoly|len|{n}")
-    R.analysed.setdefault("unsupported", []).extend(S.unsupported[:5])
+                    sq = r.f[0]
+                    ln = s2.itv[sq.len.vid]
+                    if ln == (n, n) and sq.head and len(sq.head) >= n:
+                        got = [s2.const(sq.head[i]) for i in range(n)]
+                except Exception:
+                    pass
+            want = [sum(vals[i * k:(i + 1) * k]) for i in range(n)] if len(vals) == 4096 else None
+            R.check(len(vals) == 4096 and got is not None and got == want, "C04-genpoly", site + f" chunk (sequence {seed})",
+                    f"4096 draws; coefficient i is the sum of draws {k}i .. {k}i+{k - 1} ({n} coefficients, compared on a pseudo-random draw sequence)",
+                    f"{len(vals)} draws; result length {ln}; " + ("result is not a list of constants" if got is None else
+                                                                 f"first deviation at coefficient {next((i for i in range(n) if got[i] != want[i]), None) if want else None}"),
+                    key=f"genpoly|chunk|{n}|{seed}")
+            if seed == 1:
+                R.check(ln == (n, n), "C04-genpoly", site + " length", f"returns exactly {n} coefficients", f"length {ln}, outcomes {len(outs)}", key=f"genpoly|len|{n}")
+            R.analysed.setdefault("unsupported", []).extend(S.unsupported[:5])
 
 
 def clause_gs_norm(R, rule="C04-gsnorm"):
